@@ -4,6 +4,6 @@ set -e
 name=$1
 cd /tmp/wt/mine && git checkout -q -- . 
 python3 - 
-git diff -- src > /verif/mutants/$name.diff
+git diff -- src > /verif/${OUTDIR:-mutants}/$name.diff
 git checkout -q -- .
-test -s /verif/mutants/$name.diff && echo "wrote /verif/mutants/$name.diff ($(wc -l < /verif/mutants/$name.diff) lines)" || (echo "EMPTY PATCH $name"; exit 1)
+test -s /verif/${OUTDIR:-mutants}/$name.diff && echo "wrote /verif/${OUTDIR:-mutants}/$name.diff ($(wc -l < /verif/${OUTDIR:-mutants}/$name.diff) lines)" || (echo "EMPTY PATCH $name"; exit 1)
